@@ -51,6 +51,8 @@ def run(c, facts, tier):
     from .. import report as _rep
 
     _rep.require(c, facts, "c02", "C12.partition", "<Vec<FormatElement> as TargetScheme>::compile", "the format compiler has exactly the reviewed paths", lambda o: o["rule"] in ("C02.fmt", "C02.fmt-arity", "C02.elements") and "FormatElement" in str(o["site"]), "that an unsupported format element is refused is read off the element tables of the format compiler; a path of that function the tables do not know (a cache hit that returns before the refusing pass) is reported by C02.fmt")
+    _rep.require(c, facts, "c05", "C12.partition", "parse", "an unsupported keyword is parsed into its own node", lambda o: o["rule"] == "C05.vocab", "a construct can only be refused by the compiler if the parser builds the node that stands for it (`-ilname` read as `-iname` is compiled without complaint): keyword → variant is decided by C05.vocab")
+    _rep.require(c, facts, "c14", "C12.partition", "parse", "an unsupported format directive is parsed into its own element", lambda o: o["rule"] in ("C14.literals", "C14.fields", "C14.escapes", "C14.unknown", "C14.octal"), "an unsupported `%` directive or escape can only be refused if the format string is segmented as documented (not swallowed by a literal run): decided by the C14 rules")
     _rep.require(c, facts, "c06", "C12.partition", "parse", "an unsupported primary written in the text reaches the tree", lambda o: o["rule"] in ("C06.quoting", "C06.api", "C06.blank-set"), "a primary can only be refused if it is not swallowed by the argument before it: decided by the C06 rules on word boundaries and the glue")
     c.decided = ["fails exactly when an unsupported construct occurs at any depth", "error names the construct", "nothing omitted / replaced by a constant / left as a placeholder", "supported-only expressions compile"]
     tabs = {k: codegen.table(facts, k) for k in FAMILY}
